@@ -286,7 +286,10 @@ func hasVar(text string) bool {
 	return false
 }
 
-var genZones = []string{"", "", "UTC", "+05:30", "-08:00", "America/New_York", "America/New_York", "Australia/Lord_Howe", "Europe/London"}
+// Named zones include pairs whose abbreviations coincide while their offsets
+// differ (CST: Chicago/Shanghai, IST: Kolkata/Dublin).
+var genZones = []string{"", "", "UTC", "+05:30", "-08:00", "America/New_York", "America/New_York", "Australia/Lord_Howe",
+	"Europe/London", "America/Chicago", "Asia/Shanghai", "Asia/Kolkata", "Europe/Dublin"}
 
 // dstInstants are instants near DST changes and year ends used as
 // clock-jump targets (times of day kept between 01:00 and 20:00 UTC).
@@ -389,6 +392,13 @@ func Generate(seed uint64, opt GenOptions) *Scenario {
 		homeGroups = append(homeGroups, poolPaths[i].Groups...)
 	}
 
+	nValid := len(sc.Paths)
+	if g.chance(0.5) {
+		for i, n := 0, 1+g.r.IntN(3); i < n; i++ {
+			sc.Paths = append(sc.Paths, poolParseOnly[g.r.IntN(len(poolParseOnly))])
+		}
+	}
+
 	// Shared documents: home documents of the chosen pool paths first.
 	addDoc := func(js string) {
 		for _, d := range sc.Docs {
@@ -429,7 +439,11 @@ func Generate(seed uint64, opt GenOptions) *Scenario {
 			continue
 		}
 		if g.chance(0.5) {
-			sc.Vars = append(sc.Vars, DocSpec{JSON: v, Number: useNumber && g.chance(0.5)})
+			d := DocSpec{JSON: v, Number: useNumber && g.chance(0.5)}
+			if !d.Number && g.chance(0.25) {
+				d.Native = true
+			}
+			sc.Vars = append(sc.Vars, d)
 		}
 	}
 
@@ -438,7 +452,7 @@ func Generate(seed uint64, opt GenOptions) *Scenario {
 		var ts TaskSpec
 		nOps := 1 + g.r.IntN(maxOps)
 		for oi := 0; oi < nOps; oi++ {
-			op := OpSpec{Path: g.r.IntN(len(sc.Paths)), Doc: g.r.IntN(len(sc.Docs)), Vars: -1}
+			op := OpSpec{Path: g.r.IntN(nValid), Doc: g.r.IntN(len(sc.Docs)), Vars: -1}
 			switch n := g.r.IntN(100); {
 			case n < 35:
 				op.Kind = "query"
@@ -456,8 +470,13 @@ func Generate(seed uint64, opt GenOptions) *Scenario {
 				op.Kind = "marshal"
 			case n < 90:
 				op.Kind = "ispredicate"
-			case n < 95:
+			case n < 94:
 				op.Kind = "parse"
+				op.Path = g.r.IntN(len(sc.Paths))
+			case n < 96:
+				op.Kind = g.pick("scan", "unmarshal")
+				op.Path = g.r.IntN(len(sc.Paths))
+				op.Path2 = g.r.IntN(len(sc.Paths))
 			default:
 				op.Kind = "parsequery"
 			}
@@ -599,19 +618,24 @@ func twinPairs() [][2]int {
 }
 
 // TwinScenario is the directed family for the race oracle: three tasks run
-// staggered call lists over the SAME Path, document and variables in
-// lock-step windows, so that every node of every curated path is evaluated
-// by two tasks with no happens-before edge between them, and String, Parse
-// and the executor overlap pairwise.
+// call lists over the SAME never-before-used Path, document and variables in
+// lock-step windows. Variant 0 and 2 use identical lists (clones), so that
+// the first evaluation of every node, and the first String()/MarshalText()
+// of the Path, happen in two tasks with no happens-before edge between them;
+// variants 1 and 3 stagger the lists so that String, Parse, Scan and the
+// executor overlap pairwise.
 func TwinScenario(idx int, mode string) *Scenario {
 	pairs := twinPairs()
 	pr := pairs[idx%len(pairs)]
 	variant := idx / len(pairs)
 	p, d := poolPaths[pr[0]], poolDocs[pr[1]]
+	other := poolPaths[(pr[0]+7)%len(poolPaths)].Text
 	sc := &Scenario{Version: 1, Property: "C19", Seed: uint64(idx), Mode: mode, Start: "2021-03-10T09:30:00Z",
-		Paths: []string{p.Text}, Docs: []DocSpec{{JSON: d.JSON, Number: variant%2 == 1}},
-		Vars: []DocSpec{{JSON: poolVars[0]}}, Note: "twin family"}
-	zone := []string{"America/New_York", "UTC", "+05:30", ""}[(idx+variant)%4]
+		Paths: []string{p.Text, other, poolParseOnly[idx%len(poolParseOnly)]},
+		Docs:  []DocSpec{{JSON: d.JSON, Number: variant%4 >= 2 && variant%2 == 1}},
+		Vars:  []DocSpec{{JSON: poolVars[0], Native: variant%4 == 2}}, Note: fmt.Sprintf("twin family variant %d", variant%4)}
+	zones := []string{"America/New_York", "UTC", "+05:30", "", "America/Chicago", "Asia/Shanghai", "Asia/Kolkata", "Europe/Dublin"}
+	zone := zones[(idx+variant)%len(zones)]
 	mk := func(kind string) OpSpec {
 		o := OpSpec{Kind: kind, Path: 0, Doc: 0, Vars: 0}
 		if o.IsExec() {
@@ -619,12 +643,36 @@ func TwinScenario(idx int, mode string) *Scenario {
 			o.Zone = zone
 			o.Silent = (idx+variant)%3 == 0
 		}
+		switch kind {
+		case "scan", "unmarshal":
+			o.Path2 = 1
+		case "parsebad":
+			o.Kind, o.Path = "parse", 2
+		case "scanbad":
+			o.Kind, o.Path2 = "scan", 2
+		}
 		return o
 	}
-	lists := [][]string{
-		{"query", "exists", "string", "parse", "first", "marshal"},
-		{"string", "query", "parse", "match", "query", "parsequery"},
-		{"exists", "parse", "query", "ispredicate", "existsormatch", "string"},
+	var lists [][]string
+	switch variant % 4 {
+	case 0:
+		l := []string{"query", "exists", "string", "first", "parse", "match", "marshal", "existsormatch", "ispredicate", "parsequery"}
+		lists = [][]string{l, l, l}
+	case 2:
+		l := []string{"string", "marshal", "ispredicate", "parse", "parsebad", "scan", "parsequery", "query", "exists", "first"}
+		lists = [][]string{l, l, l}
+	case 1:
+		lists = [][]string{
+			{"query", "exists", "string", "parse", "first", "marshal"},
+			{"string", "query", "parse", "match", "query", "parsequery"},
+			{"exists", "parse", "query", "ispredicate", "existsormatch", "string"},
+		}
+	default:
+		lists = [][]string{
+			{"parse", "scan", "query", "string", "unmarshal", "first"},
+			{"query", "string", "unmarshal", "parsebad", "exists", "scanbad"},
+			{"string", "exists", "parse", "scan", "query", "marshal"},
+		}
 	}
 	for _, l := range lists {
 		var ts TaskSpec
@@ -637,12 +685,12 @@ func TwinScenario(idx int, mode string) *Scenario {
 	if mode == "interleave" {
 		// Round-robin one step at a time: maximal interleaving of the
 		// same path's executions.
-		for w := 0; w < 600; w++ {
+		for w := 0; w < 900; w++ {
 			sc.Schedule = append(sc.Schedule, Window{Tasks: []int{w % n}})
 		}
 		return sc
 	}
-	for w := 0; w < 400; w++ {
+	for w := 0; w < 600; w++ {
 		sc.Schedule = append(sc.Schedule, Window{Tasks: []int{0, 1, 2}})
 	}
 	return sc
